@@ -411,7 +411,12 @@ def c14_e(ctx: Ctx):
             sl, sr = side(l), side(r)
             strict_newer = (not neg and ((isinstance(op, ast.Gt) and (sl, sr) == ("src", "dst")) or (isinstance(op, ast.Lt) and (sl, sr) == ("dst", "src")))) \
                 or (neg and ((isinstance(op, ast.LtE) and (sl, sr) == ("src", "dst")) or (isinstance(op, ast.GtE) and (sl, sr) == ("dst", "src"))))
-            if "lstat" in (sl, sr):
+            trunc = [x for x in (l, r) if isinstance(x, ast.Call) and isinstance(x.func, ast.Name) and x.func.id in ("int", "round", "floor", "trunc")
+                     or (isinstance(x, ast.BinOp) and isinstance(x.op, ast.FloorDiv))]
+            if trunc:
+                out.append(ctx.viol(R, fi, rets[0], f"FileSync.update compares truncated modification times ({canon(trunc[0])[:50]}): a source that is newer by less than the truncation step "
+                                    "(within the same second) is not copied, the destination keeps its stale file"))
+            elif "lstat" in (sl, sr):
                 out.append(ctx.viol(R, fi, rets[0], "FileSync.update compares os.lstat() times, i.e. the age of a symbolic link itself, while the copy (follow_symlinks=True) transfers the link target's "
                                     "content: a fresh link to old data overwrites a newer destination file"))
             elif strict_newer:
@@ -497,4 +502,12 @@ def c14_g(ctx: Ctx):
     return res
 
 
-RULES = [c14_a, c14_b, c14_c, c14_d, c14_e, c14_f, c14_g]
+@rule("C14-h")
+def c14_h(ctx: Ctx):
+    """FileSync.Ask remembers answers per relative file name: a 'yes' for result.txt says nothing about archive/result.txt."""
+    from .lints import keyed_by_parameter
+    why = "the answer given for one file is silently applied to every file with the same base name in other directories, which are then overwritten (or kept) without asking"
+    return keyed_by_parameter(ctx, "C14-h", [("signac.sync:FileSync.Ask.__call__", "self.yes", "fn", why), ("signac.sync:FileSync.Ask.__call__", "self.no", "fn", why)])
+
+
+RULES = [c14_a, c14_b, c14_c, c14_d, c14_e, c14_f, c14_g, c14_h]
